@@ -747,13 +747,17 @@ def known_shape(case, v):
 def plan(tier):
     if tier == 'quick':
         return [{'n': 1700, 'unicode': 250, 'main': 150}] * 16
-    return [{'n': 250000, 'unicode': 40000, 'main': 10000}] * 16
+    return [{'n': 250000, 'unicode': 40000, 'main': 10000, 'fuzz': 4000}] * 16
 
 
 def run_shard(ctx, spec):
     ctx.hyp(unicode_strategy(), spec['unicode'], name='unicode')
     ctx.hyp(main_strategy(), spec['main'], name='main')
     ctx.hyp(strategy(), spec['n'], name='gen')
+    if spec.get('fuzz'):
+        # coverage-guided stage (thorough tier): libFuzzer mutates the byte stream behind the same strategy, guided by
+        # edge coverage of giscanner.annotationparser / giscanner.message; same oracles
+        ctx.fuzz(strategy(), spec['fuzz'], name='gen')
 
 
 def health(agg, tier):
